@@ -4,6 +4,7 @@
 //! Usage: `cvh <mode> <jobs.ndjson> <out.ndjson>`; each input line is one job, each output
 //! line the observation for that job. Modes are documented in the respective modules.
 
+mod displayq;
 mod inferops;
 mod inplace;
 mod logdb;
@@ -52,6 +53,7 @@ fn main() {
             "terms" => termops::run_job(&line),
             "infer" => inferops::run_job(&line),
             "logdb" => logdb::run_job(&line),
+            "display" => displayq::run_job(&line),
             _ => {
                 eprintln!("unknown mode {}", mode);
                 std::process::exit(2);
